@@ -430,6 +430,9 @@ func indexOf(h, n []byte) int {
 	return strings.Index(string(h), string(n))
 }
 
+// c18NoProgress is raised by the walker when a file handle returns (0, nil) a thousand times in a row.
+type c18NoProgress struct{ path string }
+
 // c18Call is the most expensive single library call of a walk.
 type c18Call struct {
 	What      string
@@ -523,8 +526,27 @@ func c18Walk(bi *builtImage, img *simdisk.Disk, limit int64, walkReads int64) (f
 				continue
 			}
 			timed("Read", func() {
-				if _, err := io.Copy(io.Discard, io.LimitReader(f, limit)); err != nil {
-					sawErr = true
+				// read to the end in pieces; a handle that keeps returning (0, nil) never gets there: a caller that
+				// loops until EOF (io.ReadAll, io.Copy) would spin forever
+				buf := make([]byte, 32768)
+				var total int64
+				idle := 0
+				for total < limit {
+					n, err := f.Read(buf)
+					total += int64(n)
+					if err != nil {
+						if err != io.EOF {
+							sawErr = true
+						}
+						break
+					}
+					if n == 0 {
+						if idle++; idle > 1000 {
+							panic(c18NoProgress{p})
+						}
+					} else {
+						idle = 0
+					}
 				}
 			})
 			f.Close()
@@ -608,6 +630,9 @@ func (p c18) Exec(t *core.Trace) *core.Result {
 		pk, pv, loc, st := core.Guard(func() { _, sawErr, worst = c18Walk(bi, img, 64*imgSize, budget) })
 		res.DevOps += img.St.Reads
 		if pk {
+			if np, ok := pv.(c18NoProgress); ok {
+				return &core.Violation{Clause: "C18.read-makes-no-progress", Trigger: trig, Locus: "filesystem/" + kindPkg(kind), Detail: fmt.Sprintf("Read of %q returned (0, nil) a thousand times in a row: reading to EOF never ends\nfaults: %v", np.path, ops)}
+			}
 			if pv == simdisk.ErrReadBudget {
 				return &core.Violation{Clause: "C18.read-budget", Trigger: trig, Locus: loc, Detail: fmt.Sprintf("a single library call issued more than %d device reads on a %d-byte image (whole fault-free walk: %d)\nfaults: %v", imgSize/512*4+20000, imgSize, baseReads, ops)}
 			}
